@@ -237,7 +237,7 @@ def build_tu(vu, work, canary=None):
                                            sig=kv.get("sig"))
                 elif kind == "block":
                     e = X.extract_block(path, text, kv["start"], kv["end"], kv["head"],
-                                        include_end=kv.get("include_end", "1") == "1", tail=kv.get("tail", ""))
+                                        include_end=kv.get("include_end", "1") == "1", tail=kv.get("tail", ""), start_ordinal=int(kv["start_ordinal"]) if "start_ordinal" in kv else None)
                     e.qualname = "block:" + pos[0]
                 else:
                     e = X.Extracted(path, "file:" + pos[0], text, 1, (0, len(text)))
